@@ -25,7 +25,8 @@ ASSUMPTIONS = [
     "after the first out-of-range sequence number of a (producer, partition) its later sequence events are consequences and not judged",
 ]
 REQUIRED_COUNTERS = ["histories_judged", "records_in_logs", "retries_observed", "order_pairs_checked",
-                     "sequence_arrivals_checked", "inflight_intervals_checked", "wrap_histories"]
+                     "sequence_arrivals_checked", "inflight_intervals_checked", "wrap_histories",
+                     "produce_replies_lost_on_open_connection"]
 
 
 def judge(H):
